@@ -241,3 +241,49 @@ def run(ctx):
                     r7.check(True, f"{m.rel}:{c.name}.__getstate__:{const_str(k) or src(k)}", "", m.rel, v.lineno)
     if n_states < 8:
         raise AnalysisError(f"only {n_states} __getstate__ methods of Value classes found", "__getstate__")
+
+    # ---- C16.8 values are not rebuilt in set-iteration order before they are hashed ------------------------
+    # Every task argument and result passes through the nested-value mappers before it is hashed.  A `for` over a set expression whose body
+    # inserts into an ordered structure (a __dict__, a dict, a list) makes the rebuilt value's pickle -- and hash -- follow PYTHONHASHSEED.
+    r8 = ctx.rule("C16.8", "the nested-value mappers do not iterate a set expression with an order-sensitive effect", floor=2)
+    um = repo.mod(UTILS)
+
+    def set_expr(e) -> bool:
+        if set_typed(e):
+            return True
+        if isinstance(e, ast.BinOp) and isinstance(e.op, (ast.Sub, ast.BitOr, ast.BitAnd, ast.BitXor)):
+            return any(set_expr(x) or (isinstance(x, ast.Call) and last_attr(x) == "keys") for x in (e.left, e.right))
+        if isinstance(e, ast.Call) and last_attr(e) in ("difference", "union", "intersection", "symmetric_difference"):
+            return True
+        return False
+
+    n8 = 0
+    for q, fn in um.funcs.items():
+        if "nested" not in q.split(".")[-1] or not isinstance(fn, FuncNode):
+            continue
+        n8 += 1
+        set_names = set()
+        for n in ast.walk(fn):
+            if isinstance(n, ast.Assign) and set_expr(n.value):
+                set_names |= {t.id for t in n.targets if isinstance(t, ast.Name)}
+        offenders = []
+        for n in ast.walk(fn):
+            its = []
+            if isinstance(n, ast.For):
+                its = [n.iter]
+            elif isinstance(n, (ast.ListComp, ast.DictComp, ast.GeneratorExp)):
+                its = [g.iter for g in n.generators]
+            for it in its:
+                if set_expr(it) or (isinstance(it, ast.Name) and it.id in set_names):
+                    offenders.append(it)
+        r8.check(
+            not offenders,
+            f"{um.rel}:{q}:set-ordered-rebuild",
+            (f"`for .. in {src(offenders[0])}` (line {offenders[0].lineno}) visits a set in iteration order while rebuilding the value: what it inserts (e.g. extra "
+             "__dict__ items of a dataclass) lands in PYTHONHASHSEED-dependent order, the rebuilt value pickles differently and its hash differs between processes; iterate the "
+             "original mapping (or sorted(...)) instead") if offenders else "",
+            um.rel,
+            offenders[0].lineno if offenders else fn.lineno,
+        )
+    if n8 < 2:
+        raise AnalysisError(f"only {n8} nested-value functions found in {um.rel}", "map_nested_value")
